@@ -148,6 +148,21 @@ def run(ctx) -> list[Inst]:
             add(op, 'operands evaluated by recursive calls on lhs / rhs', 'unproven',
                 'recursive evaluation of lhs/rhs not recognised')
             continue
+        # both operands are evaluated on every path through the case: no return / raise between the two calls
+        cfg = ctx.cfg(f)
+        calls = [r for r in rc if (_is_sub(_arg(r['call'], f, P_E), P_E, 'lhs') or
+                                   _is_sub(_arg(r['call'], f, P_E), P_E, 'rhs'))]
+        cnodes = list({x.idx: x for x in (cfg.owner(r['call']) for r in calls) if x is not None}.values())
+        if len(cnodes) >= 2:
+            first, second = sorted(cnodes, key=lambda x: x.idx)[:2]
+            # is there a path from the first evaluation to an exit that avoids the second one?
+            reach = cfg.reachable_from(first, avoiding={second.idx})
+            escapes = cfg.exit.idx in reach or cfg.raise_exit.idx in reach
+            add(op, 'both operands are evaluated on every path',
+                'violation' if escapes else 'ok',
+                (f"a path leaves the {op} case after '{stmt_text(first.ast, 60)}' without evaluating the other "
+                 f"operand (early return): for a union the elements of the skipped operand are lost")
+                if escapes else '')
         add(op, 'lhs and rhs evaluated on the same incoming targets',
             'ok' if same_targets else 'violation',
             '' if same_targets else (f"one operand of {op} is not evaluated on '{P_T}': the set operator "
